@@ -28,6 +28,30 @@ def main():
                           "z3 shows rows and fault outcomes equal, and Inv (every vector column empty) restored at the end of every non-faulting event - "
                           "one inductive step, which covers event sequences of any length and any order")
     cleanup_scratch()
+    # "... or split across jobs": at the level of the run script, the job of one invocation must read exactly the input it was
+    # given, whatever earlier invocations in the same working area did (engine D, the C16 shell model; only that clause is taken)
+    import json
+    from ..common import REPLAYS, pmap
+    from . import C16
+    split_hist = [[["r", "d", "o"], ["r", "d", "o"]], [["d", "o"], ["r", "d", "o"]], [["c"], ["r", "d"], ["r", "d"]], [["r", "d"], ["r", "d"], ["r", "d"]]]
+    items = [(b, h, False, 6) for b in C16.SCRIPTS for h in split_hist]
+    shell = {"histories": len(items), "violations": 0, "inconclusive": 0}
+    for it, r in zip(items, pmap(C16.analyse_history, items, a.jobs)):
+        rep.obligations += 1
+        if "__error__" in r or r.get("unsupported"):
+            shell["inconclusive"] += 1
+            rep.inconc(f"runner.sh {it[0]} {it[1]}", r.get("__error__") or ("outside bash subset: " + r["unsupported"]))
+            continue
+        bad = [v for v in r["violations"] if "sole input" in v["clause"]]
+        if bad:
+            shell["violations"] += 1
+            d = REPLAYS / "C05" / f"runner-{r['backend']}-{abs(hash(json.dumps(r['history']))) % 10**8}"
+            d.mkdir(parents=True, exist_ok=True)
+            (d / "finding.json").write_text(json.dumps(r, indent=1, default=str))
+            rep.violation(f"{r['backend']} runner.sh, invocations {r['history']}: a job reads input that is not its own: {bad[0]['clause']}", d)
+        else:
+            rep.discharged += 1
+    cov["job_splitting_at_script_level"] = shell
     sys.exit(rep.finish(cov, ENGINE_A_ASSUMPTIONS + [
         "Inv holds after booking (default-constructed members)",
         "opaque user C++ (add_cpp_function) is a pure function of its arguments; hidden static state in user code is outside the claim",
